@@ -471,7 +471,7 @@ def build(repo):
     u.rule('R23:ref-pattern-in-for', r'for \(&option, value\) in src\.options\(\) \{', 'for (option_ref, value) in src.options() { let option = *option_ref;', 1)
     u.rule('R22:clone_from', r'(\w[\w\.]*)\.clone_from\(&(\w+)\);', r'\1 = \2.clone();', (0, 2))
     u.rule('R23:ref-pattern', r'if let Some\(ref response\) = state\.cached_response \{', 'if let Some(response) = &state.cached_response {', 1)
-    u.rule('R19:chunks-skip', r'([\w.&]+?)\s*\.chunks\(((?:[^()]|\([^()]*\))+?)\)\s*\.skip\(((?:[^()]|\([^()]*\))+?)\)', r'chunks_skip(\1, \2, \3)', 1)
+    u.rule('R19:chunks-skip', r'((?:[\w&]+\s*\.\s*)*[\w&]+)\s*\.chunks\(((?:[^()]|\([^()]*\))+?)\)\s*\.skip\(((?:[^()]|\([^()]*\))+?)\)', r'chunks_skip(\1, \2, \3)', 1)
     u.rule('R6:extend-slice', r'response_payload\.extend\(cached_payload_chunk\);', 'vec_extend_slice(response_payload, cached_payload_chunk);', 1)
     u.rule('R1:deque-clone', r'dst\.set_option\(CoapOption::from\(option\), value\.clone\(\)\);', 'dst.set_option(CoapOption::from(option), deque_clone(value));', 1)
     for fn in ['maybe_handle_request_block2']:
